@@ -14,7 +14,7 @@ LEVEL_TEXT = ('seeded exploration of index channels (all dtypes, uniform/near-un
               'windows x sequences of 1-3 writes with other windows/data x explicit user values; FRAME attributes vs rows of the same file')
 LEVEL_NOTE = ('trusted: sim/rp66.py; uniformity classes: squared relative deviation < 1e-4 uniform, > 1e-2 non-uniform, in between '
               'skipped (counted); NaN/inf indexes skipped (undocumented)')
-TIERS = {'quick': {'cases': 2000, 'wall': 40}, 'thorough': {'cases': 300000, 'wall': 780}}
+TIERS = {'quick': {'cases': 6000, 'wall': 40}, 'thorough': {'cases': 300000, 'wall': 780}}
 RULE = ('case = seeded indexed or row-numbered frame written 1-3 times with seeded windows / replacement data; non-trivial = '
         'an indexed frame written at least twice with different rows; distinct = case digest')
 
